@@ -25,6 +25,9 @@ def corpus(tier, seed):
         ins_spec("gauss4", s + 8, 80, n_initial=120, draw_constant=True, strict_threshold=True,
                  draw_iid_live=False),
         ins_spec("trunc2", s + 9, 100, max_iteration=4, kills=[350]),
+        # prior that is not uniform in the unit hypercube: logU != 0, logW = logU - logQ
+        ins_spec("uprior2", s + 10, 100, max_iteration=4),
+        ins_spec("uprior2", s + 11, 100, max_iteration=4, draw_iid_live=False, kills=[350]),
     ]
     if tier == "thorough":
         k = 9
